@@ -78,7 +78,7 @@ func channelDerived(d *Term, fn *ssa.Function) bool {
 		if x.Op != OpAtom {
 			return false
 		}
-		if strings.HasSuffix(x.Name, ".channels") || strings.HasSuffix(x.Name, ".Channels") {
+		if strings.HasSuffix(x.Name, hdrLayout.chSuffix()) || strings.HasSuffix(x.Name, ".Channels") {
 			return true
 		}
 		return fn.Name() == "ChannelLength" && len(fn.Params) == 2 && x.Name == fn.Params[1].Name()
@@ -278,14 +278,14 @@ func scenarios(fn *ssa.Function) []degenerate {
 	}
 	var out []degenerate
 	for _, b := range bufs {
-		out = append(out, degenerate{"zero-length " + b, map[string]*Term{"len(" + b + ".data)": zeroI()}})
+		out = append(out, degenerate{"zero-length " + b, map[string]*Term{"len(" + b + hdrLayout.dataSuffix() + ")": zeroI()}})
 	}
 	if len(bufs) > 0 {
 		zc, zch := map[string]*Term{}, map[string]*Term{}
 		for _, b := range bufs {
-			zc["len("+b+".data)"], zc["cap("+b+".data)"] = zeroI(), zeroI()
-			zch["len("+b+".data)"], zch["cap("+b+".data)"] = zeroI(), zeroI()
-			zch[b+".channels"] = zeroI()
+			zc["len("+b+hdrLayout.dataSuffix()+")"], zc["cap("+b+hdrLayout.dataSuffix()+")"] = zeroI(), zeroI()
+			zch["len("+b+hdrLayout.dataSuffix()+")"], zch["cap("+b+hdrLayout.dataSuffix()+")"] = zeroI(), zeroI()
+			zch[b+hdrLayout.chSuffix()] = zeroI()
 		}
 		out = append(out, degenerate{"zero-capacity", zc}, degenerate{"zero-channels", zch})
 	}
@@ -334,7 +334,8 @@ func checkC20(c *Checker) {
 	c.Extra["divisions_checked"] = nDiv
 	// ---- Z2 / Z3 per entry point and scenario
 	entries := []string{"Read", "Write", "ReadStriped", "WriteStriped", "(*Buffer[D]).Append", "(*Buffer[T]).AppendSample",
-		"(*Buffer[T]).Length", "(*Buffer[T]).Capacity", "(*Buffer[T]).Len", "(*Buffer[T]).Cap", "(C[T]).Length", "(C[T]).Capacity"}
+		"(*Buffer[T]).Length", "(*Buffer[T]).Capacity", "(*Buffer[T]).Len", "(*Buffer[T]).Cap", "(C[T]).Length", "(C[T]).Capacity",
+		"(*Buffer[T]).Slice", "(*Buffer[T]).Channel"}
 	entries = append(entries, conversionNames...)
 	for _, name := range entries {
 		fn := c.anchor("C20-Z2", name)
@@ -346,13 +347,17 @@ func checkC20(c *Checker) {
 			if strings.HasPrefix(sc.name, "zero-length") && (strings.Contains(name, "Append") || strings.HasSuffix(name, ".Cap") || strings.HasSuffix(name, ".Capacity")) {
 				continue
 			}
+			// Slice takes arbitrary frame numbers: only a zero-channel buffer makes every window empty
+			if strings.HasSuffix(name, ".Slice") && sc.name != "zero-channels" {
+				continue
+			}
 			c.degenerateRun(fn, sc)
 		}
 	}
 	// a pool built from a zero-channel allocator: putting back the buffer it handed out must not panic
 	if fn := c.anchor("C20-Z3", "(*PoolAllocator[T]).Put"); fn != nil && len(fn.Params) == 2 {
 		p, b := paramName(fn, 0), paramName(fn, 1)
-		asm := map[string]*Term{p + ".alloc.Channels": zeroI(), b + ".channels": zeroI(), "len(" + b + ".data)": zeroI(), "cap(" + b + ".data)": zeroI()}
+		asm := map[string]*Term{p + ".alloc.Channels": zeroI(), b + hdrLayout.chSuffix(): zeroI(), "len(" + b + hdrLayout.dataSuffix() + ")": zeroI(), "cap(" + b + hdrLayout.dataSuffix() + ")": zeroI()}
 		s := c.runAssumed(fn, asm)
 		inst := shortFn(c.W, fn) + " @ zero-channel pool"
 		if !c.undecidedEffects("C20-Z3", inst, s) {
@@ -406,13 +411,16 @@ func (c *Checker) degenerateRun(fn *ssa.Function, sc degenerate) {
 	var w3 string
 	for _, o := range s.Outcomes {
 		if o.Kind == OPanic {
+			// the shape guard: the decisive (last) condition of the path says two counts differ; pure reads
+			// (bit depths) may have been compared before it
 			guard := false
-			for _, f := range nonAxiomFacts(o.St.facts) {
-				if f.Kind == CNE0 {
-					guard = true
-				}
+			if fs := nonAxiomFacts(o.St.facts); len(fs) > 0 {
+				last := fs[len(fs)-1]
+				guard = last.Kind == CNE0 && last.P != nil && last.P.mentions(func(x *Term) bool {
+					return x.Op == OpAtom && (strings.HasSuffix(x.Name, hdrLayout.chSuffix()) || strings.HasPrefix(x.Name, "len("))
+				})
 			}
-			if !guard || len(nonAxiomFacts(o.St.facts)) != 1 {
+			if !guard || len(mods(o)) > 0 {
 				okZ3, d3 = false, "panic path on degenerate input: "+factsBrief(o.St.facts)
 			}
 			continue
@@ -467,6 +475,31 @@ func returnsCount(fn *ssa.Function) bool {
 func boundsImplied(e *Effect) bool { return boundsImpliedUnder(e, e.Facts) }
 
 func boundsImpliedUnder(e *Effect, facts *Facts) bool {
+	// a bound chosen by a pure helper arrives as a conditional term: every feasible case must be implied
+	for _, pt := range []**Term{&e.Max, &e.Hi, &e.Lo, &e.Idx} {
+		if *pt == nil || !isIntLike((*pt).Typ) {
+			continue
+		}
+		if ct := canon(*pt); ct.Op == OpIte {
+			for _, cs := range casesOf(ct, facts, 0) {
+				e2 := *e
+				switch pt {
+				case &e.Max:
+					e2.Max = cs.val
+				case &e.Hi:
+					e2.Hi = cs.val
+				case &e.Lo:
+					e2.Lo = cs.val
+				case &e.Idx:
+					e2.Idx = cs.val
+				}
+				if !boundsImpliedUnder(&e2, cs.facts) {
+					return false
+				}
+			}
+			return true
+		}
+	}
 	f := withZeroAtoms(facts)
 	// a bound that is zero on the degenerate input (e.g. the frame count of an empty buffer) is read as 0
 	nz := func(t *Term) *Poly {
